@@ -125,6 +125,8 @@ pub fn call_in(delay_ns: u64, f: impl FnOnce(&mut World) + Send + 'static) {
 }
 
 pub struct RunResult {
+    /// scheduler stamp at which the I/O thread finished (None: it never did)
+    pub io_exit: Option<u64>,
     pub outcome: Outcome,
     pub drained: bool,
     pub fin: simrt::Finished,
@@ -141,11 +143,12 @@ where
     simrt::start(choices, sched, hash_seed);
     setup(world);
     let outcome = simrt::run(|ev| world.handle(ev));
+    let io_exit = simrt::io_thread_exit_stamp();
     let drained = match outcome {
         Outcome::Finished => true,
         _ => simrt::drain(2_000_000),
     };
     let fin = simrt::finish();
     let panics = simrt::take_panics();
-    RunResult { outcome, drained, fin, panics }
+    RunResult { io_exit, outcome, drained, fin, panics }
 }
